@@ -99,6 +99,9 @@ def gen_program(rnd, prof):
     for n in names:
         if not p.targets[n].get('phony') and r2.random() < prof.get('p_scribble', 0.4):
             p.targets[n]['scribble'] = True
+        if p.targets[n].get('stamp') and r2.random() < prof.get('p_stamppipe', 0.5):
+            # redo-stamp reads its data from a pipe that delivers it in two pieces (the first line, a pause, the rest)
+            p.targets[n]['stamppipe'] = True
     return p
 
 
